@@ -3,6 +3,7 @@
 //   C02 minimum-energy interpolant (dense reference solve, continuity, variational test)   [+ C02e enumerated structures]
 //   C04 reported energy = integral of squared s-th derivative of the published trajectory
 //   C18 graceful degradation of the defining equations up to duration ratio 100
+#include <algorithm>
 #include "spline_gen.hpp"
 #include "spline_resid.hpp"
 
@@ -270,10 +271,25 @@ void c02_body(Tape& t, Ctx& ctx, SplineCase<D>& c, bool enumerated) {
   constexpr int nc = 2 * S;
   const int N = c.N;
   // route: fresh object through either time specification, or an object that previously solved a LARGER problem
-  int route = t.pickw({2, 2, 2});
+  // or an object that held the SAME problem except for one ingredient (boundary argument / waypoints / durations)
+  int route = t.pickw({2, 2, 2, 2});
   Spline sp;
   if (route == 0) sp = Spline(c.T, c.P, c.t0, c.bc);
   else if (route == 1) sp = Spline(c.time_points(), c.P, c.bc);
+  else if (route == 3) {
+    SplineCase<D> old = c;
+    SplineCase<D> alt; alt.s = S; alt.N = N;
+    gen_durations(t, alt.N, wellscaled_ratio(S), alt.T, &alt.sigma, &alt.ratio, &alt.dur_shape, &alt.shape);
+    alt.t0 = c.t0; gen_data(t, alt);
+    int what = t.range(0, 2);
+    if (what == 0) { old.bc = alt.bc; if (t.chance(1, 3)) old.bc = BoundaryConditions<D>(); }
+    else if (what == 1) old.P = alt.P;
+    else { old.T = alt.T; if (t.flag() && N >= 2) { old.T = c.T; std::rotate(old.T.begin(), old.T.begin() + 1, old.T.end()); } }
+    bool pts = t.flag();
+    sp = pts ? Spline(old.time_points(), old.P, old.bc) : Spline(old.T, old.P, old.t0, old.bc);
+    if (t.chance(1, 2)) (void)sp.getEnergy();
+    if (t.chance(3, 4) ? pts : !pts) sp.update(c.time_points(), c.P, c.bc); else sp.update(c.T, c.P, c.t0, c.bc);
+  }
   else {
     SplineCase<D> old;
     old.s = S; old.N = N + 1 + t.range(0, 4);
@@ -283,7 +299,7 @@ void c02_body(Tape& t, Ctx& ctx, SplineCase<D>& c, bool enumerated) {
     sp = Spline(old.T, old.P, old.t0, old.bc);
     if (t.flag()) sp.update(c.T, c.P, c.t0, c.bc); else sp.update(c.time_points(), c.P, c.bc);
   }
-  ctx.label(route == 0 ? "route:fresh(durations)" : (route == 1 ? "route:fresh(time points)" : "route:reused-after-larger-problem"));
+  ctx.label(route == 0 ? "route:fresh(durations)" : (route == 1 ? "route:fresh(time points)" : (route == 3 ? "route:reused-after-same-problem-but-one-ingredient" : "route:reused-after-larger-problem")));
   // use the durations the spline reports (time-point route rounds them)
   SplineCase<D> ce = c;
   ce.T = sp.getTimeSegments();
@@ -423,6 +439,17 @@ void c04_case(Tape& t, Ctx& ctx) {
     c.s = S; c.N = gen_N(t);
     gen_durations(t, c.N, 1e4, c.T, &c.sigma, &c.ratio, &c.dur_shape, &c.shape);
     c.t0 = gen_start_time(t);
+    // "any scale": a quarter of the cases move the whole time axis by 10^k, k in -8..-3 and 3..5 (the data's boundary
+    // derivatives follow sigma); the start time then stays small enough for the knot times to resolve the durations
+    if (t.chance(1, 4)) {
+      static const int kExp[] = {-8, -7, -6, -5, -4, -3, 3, 4, 5};
+      int e = kExp[t.range(0, 8)];
+      double f = std::pow(10.0, e);
+      for (double& x : c.T) x *= f;
+      c.sigma *= f;
+      if (e < 0) c.t0 = t.flag() ? 0.0 : c.T[0] * t.range(-8, 8);
+      ctx.label(e < 0 ? "time-axis:tiny" : "time-axis:huge");
+    }
     gen_data(t, c);
     const int N = c.N;
     // history: fresh object, or an object that answered getEnergy for another problem and was then updated (either overload)
